@@ -4,8 +4,6 @@ from __future__ import annotations
 from datetime import datetime
 from typing import cast
 
-import construct  # type: ignore
-
 from han import aidon, dlde, kaifa, kamstrup
 from han.common import MeterMessageBase
 
@@ -64,7 +62,9 @@ class AutoDecoder:
                 decoded = decoder(payload)
                 self.__previous_success = index
                 return decoded
-            except (construct.ConstructError, ValueError):
+            except Exception:  # pylint: disable=broad-except
+                # Not a message for this decoder. Decoders raise ConstructError or ValueError when parsing fails,
+                # but normalizing a message that was parsed by the wrong decoder can fail in other ways too.
                 pass
 
         return None
@@ -98,7 +98,9 @@ class AutoDecoder:
                 )
                 self.__previous_success = index
                 return decoded
-            except (construct.ConstructError, ValueError):
+            except Exception:  # pylint: disable=broad-except
+                # Not a message for this decoder. Decoders raise ConstructError or ValueError when parsing fails,
+                # but normalizing a message that was parsed by the wrong decoder can fail in other ways too.
                 pass
 
         return None
